@@ -5,7 +5,8 @@
    the implementation's hash equality individual_heq is one, C10_eq_is_equivalence), the evaluator oracle `ev`,
    thresholds, probabilities, decision streams, per-task logs (optimiser answers, generated layers), completion
    orders pi, and the variant flag of optimize_layer where it does not matter. *)
-From QV Require Import Evqe.Heap Evqe.Speciation_proofs Evqe.Ops_proofs Evqe.Heap_proofs Evqe.Completes_proofs.
+From QV Require Import Evqe.Heap Evqe.Speciation_proofs Evqe.Ops_proofs Evqe.Heap_proofs Evqe.Completes_proofs Evqe.TopoC20_proofs.
+From QV Require Evqe.Stream Evqe.RandLayer.
 From Coq Require Import Permutation Sorting.Sorted.
 Open Scope Z_scope.
 
@@ -260,6 +261,24 @@ Example C10_roulette_zero_boundary :
      = ([CbCount 1; CbResult (mkRes z_pop [0%Q] w_a 0%Q)], Ok (mkPop [w_a] (Some [w_a]) None None)).
 Proof. exact roulette_zero_boundary. Qed.
 Print Assumptions C10_roulette_zero_boundary.
+
+(* C10 x C20: in the models above the layer generated by topological search is an oracle input whose contract (a
+   well-formed layer on the individual's qubits) the model checks itself (OracleContract otherwise, a log error in
+   C10_completes).  Instantiated with the model of EVQECircuitLayer.random_layer (Evqe/RandLayer.v, C20_layer_valid):
+   whenever random_layer returns a layer for the individual's qubit count and last layer, the task log built from it
+   passes the contract and the task returns a valid individual one layer longer.  (The full composition of a whole EVQE
+   run with random_layer in place of the oracle is Repro/Compose.v, C17.) *)
+Theorem C10_topological_search_with_random_layer :
+  forall (V : Type) (zero : V) (x : individual V) (last : layer) (seed layer_seed : Z)
+         (s : Stream.stream) (fuel : nat) (l : layer) s',
+    individual_is_valid x = true -> 1 <= i_qubits x ->
+    (exists pre, i_layers x = pre ++ [last]) ->
+    0 <= layer_seed <= SEED_MAX ->
+    RandLayer.random_layer (i_qubits x) (Some last) (Some layer_seed) s fuel = Ok (l, s') ->
+    exists x', topological_task zero x seed [TSeed seed; TDec (KRandint 0 SEED_MAX layer_seed); TLayer l] = Ok (x', 0, [])
+               /\ individual_is_valid x' = true /\ i_qubits x' = i_qubits x /\ i_layers x' = i_layers x ++ [l].
+Proof. exact @topological_task_with_random_layer. Qed.
+Print Assumptions C10_topological_search_with_random_layer.
 
 Example C10_completes_hypotheses_satisfiable :
   Forall (step_ok (V := Z)) w_steps /\ (forall x, exists v, w_ev x = Ok v)
